@@ -48,7 +48,7 @@ theorem test_X8_model :
 
 theorem test_X16_model :
     runDst Gen.ListArm64Asm.cryptoBlockAsmX16Internal Gen.ListArm64AsmArr.cryptoBlockAsmX16Internal_arr
-        (kernelStateX16 junkG junkV rkStd (List.replicate 256 0) blocks16 (List.replicate 256 0x55))
+        (kernelStateX16Go junkG junkV rkStd (List.replicate 256 0) blocks16)
       = .ok (modelBlocks rkStd blocks16) := by
   decide +kernel
 
@@ -75,10 +75,11 @@ theorem test_X8 :
       = .ok (specBlocks rkStd (blocks16.take 128)) := by
   rw [test_X8_model, modelBlocks_eq _ _ rfl]
 
-/-- TEST: `cryptoBlockAsmX16Internal` (state stashed in the 256-byte `tmp` buffer), sixteen different blocks -/
+/-- TEST: `cryptoBlockAsmX16Internal` called as the Go wrapper `cryptoBlockAsmX16` of sm4_asm_arm64.go calls it
+    (the 256-byte scratch buffer `tmp` in which the state is stashed IS `dst`), sixteen different blocks -/
 theorem test_X16 :
     runDst Gen.ListArm64Asm.cryptoBlockAsmX16Internal Gen.ListArm64AsmArr.cryptoBlockAsmX16Internal_arr
-        (kernelStateX16 junkG junkV rkStd (List.replicate 256 0) blocks16 (List.replicate 256 0x55))
+        (kernelStateX16Go junkG junkV rkStd (List.replicate 256 0) blocks16)
       = .ok (specBlocks rkStd blocks16) := by
   rw [test_X16_model, modelBlocks_eq _ _ rfl]
 
